@@ -340,6 +340,56 @@ func HC18_MapExchange() {
 	vReach("end")
 }
 
+func init() { vRegister("HC18_Exchange", HC18_Exchange) }
+
+// HC18_Exchange: every method of generic.Exchange, with and without a relation
+// target, against the masks and targets the configuration declares.
+func HC18_Exchange() {
+	b := hBuildWorld()
+	w := &b.w
+	idX, idY, idZ, idR := b.ids[0], b.ids[1], b.ids[2], b.ids[3]
+	ex := NewExchange(w).Adds(T2[hRel, hZ]()...).Removes(T2[hX, hY]()...).WithRelation(T[hRel]())
+	withT := vChoice("target", 2) == 1
+	tgt := ecs.Entity{}
+	var targs []ecs.Entity
+	if withT {
+		tgt = [2]ecs.Entity{b.p1, b.p2}[vChoice("which", 2)]
+		targs = []ecs.Entity{tgt}
+	}
+	added := ecs.All(idR, idZ)
+	switch vChoice("method", 5) {
+	case 0:
+		e := ex.NewEntity(targs...)
+		vAssert(w.Mask(e) == added && w.Relations().Get(e, idR) == tgt, "Exchange.NewEntity creates the added components with the target")
+	case 1:
+		e := w.NewEntity(idX)
+		ex.Add(e, targs...)
+		vAssert(w.Mask(e) == ecs.All(idX, idR, idZ) && w.Relations().Get(e, idR) == tgt, "Exchange.Add adds the configured components with the target")
+	case 2:
+		e := w.NewEntity(idX, idY, idR)
+		ex.Remove(e, targs...)
+		vAssert(w.Mask(e) == ecs.All(idR) && w.Relations().Get(e, idR) == tgt, "Exchange.Remove removes the configured components and sets the target")
+	case 3:
+		e := w.NewEntity(idX, idY)
+		ex.Exchange(e, targs...)
+		vAssert(w.Mask(e) == added && w.Relations().Get(e, idR) == tgt, "Exchange.Exchange adds and removes the configured components with the target")
+	default:
+		idQ := ecs.ComponentID[hTQ](w)
+		e1, e2 := w.NewEntity(idX, idY, idQ), w.NewEntity(idX, idY, idQ)
+		other := w.NewEntity(idX, idY)
+		fq := ecs.All(idQ)
+		n := ex.ExchangeBatch(&fq, targs...)
+		want := ecs.All(idR, idZ, idQ)
+		vAssert(n == 2, "Exchange.ExchangeBatch returns the number of affected entities")
+		vAssert(w.Mask(e1) == want && w.Mask(e2) == want, "Exchange.ExchangeBatch adds and removes the configured components")
+		vAssert(w.Relations().Get(e1, idR) == tgt && w.Relations().Get(e2, idR) == tgt, "Exchange.ExchangeBatch sets the target")
+		vAssert(w.Mask(other) == ecs.All(idX, idY), "Exchange.ExchangeBatch leaves other entities alone")
+	}
+	vReach("end")
+}
+
+type hTQ struct{ V int32 }
+
 func init() { vRegister("HC18_TwoQueries", HC18_TwoQueries) }
 
 // HC18_TwoQueries: two queries built from one FilterN with different runtime
